@@ -114,7 +114,7 @@ def run(ctx):
            '%d functions open log files for the file/devtty/devnull outputs' % len(named_writers),
            how='%d writer(s) in all: %s' % (len(writers), ', '.join(f.name for f, _ in writers.values())))
     for key, (W, opens) in writers.items():
-        check_writer(ctx, W, opens)
+        check_writer(ctx, W, opens, named=(key in named_writers))
 
 
 PROPERTY_FILE_OUTPUTS = {'snoopy_output_fileoutput', 'snoopy_output_devttyoutput', 'snoopy_output_devnulloutput'}
@@ -140,7 +140,7 @@ def own_code(cg, out_func, f):
     return False
 
 
-def check_writer(ctx, W, opens):
+def check_writer(ctx, W, opens, named=True):
     chk = ctx.chk
     msg_ids = {p['id'] for p in W.params[:1]}  # first parameter is the log message
     for o in opens:
@@ -160,10 +160,14 @@ def check_writer(ctx, W, opens):
         else:
             fl = strip(arg(o, 1 if n == 'open' else 2)) if n != 'creat' else None
             v = fl.get('v') if fl is not None else None
-            ok = v is not None and bool(v & O_APPEND) and not (v & O_TRUNC) and bool(v & (O_WRONLY | O_RDWR))
+            O_EXCL, O_NONBLOCK = 0o200, 0o4000
+            ok = v is not None and bool(v & O_APPEND) and not (v & O_TRUNC) and bool(v & (O_WRONLY | O_RDWR)) and \
+                (not named or (not (v & O_EXCL) and not (v & O_NONBLOCK)))
             chk.ob('W1', 'append-mode[%s]' % W.name, ok, o.where(), W.name,
-                   '%s: flags %s lack O_APPEND or include O_TRUNC: concurrent writers overwrite each other / existing '
-                   'content is lost' % (render(o), render(fl) if fl is not None else n),
+                   '%s: flags %s lack O_APPEND or include O_TRUNC (concurrent writers overwrite each other / existing '
+                   'content is lost), O_EXCL (the open fails when the file exists: of two first writers one loses its '
+                   'record) or O_NONBLOCK (a slow reader of a FIFO/tty destination turns the write into EAGAIN or a short '
+                   'write and the record is lost)' % (render(o), render(fl) if fl is not None else n),
                    how='flags = %s (O_APPEND set, O_TRUNC clear)' % (oct(v) if v is not None else '?'))
             if h is not None:
                 fds.add(h)
